@@ -47,13 +47,18 @@ def pyval(x):
     return x
 
 
-def realval(x):
+def exact(x):
+    """A-REAL: the real number denoted by a float's shortest decimal representation (0.1 -> 1/10, 1e-10 -> 10^-10)."""
     if isinstance(x, float):
         if math.isinf(x) or math.isnan(x):
             raise Unsupported(f'non-finite float constant {x}')
-        fr = Fraction(repr(x)) if 'e' not in repr(x).lower() else Fraction(x)
-        # use the decimal literal when it is short (0.1 means 1/10 under A-REAL), else the exact binary value
-        return z3.RealVal(str(fr))
+        return Fraction(repr(x))
+    return Fraction(x)
+
+
+def realval(x):
+    if isinstance(x, float):
+        return z3.RealVal(str(exact(x)))
     if isinstance(x, Fraction):
         return z3.RealVal(str(x))
     return z3.RealVal(x)
